@@ -257,6 +257,92 @@ def _twin_run(rep, spec, tf, fill, lifespan, stream, pre_n, parts, did, inp):
     return "trimmed" if trimmed else "untrimmed"
 
 
+# ----------------------------------------------------------------------------- clause 3: survivors keep their readings
+def clause3(rep, seed, thorough):
+    """short lifespans and every chunk size: a candle that was already in the list and survives the trim keeps every stored
+    reading exactly (it was computed when its look-back was still there; nothing may recompute it later from less)"""
+    specs, _ = R.indicator_specs(False)
+    pick = [s for s in specs if s.label.split("(")[0].split("[")[0] in ("EMA", "RMA", "ATR", "OBV", "RSI", "MACD", "SMA", "TR", "VWAP", "STDEV", "ADX")] or specs[:8]
+    runs = 0
+    for spec in pick if thorough else pick[:7]:
+        for minutes in (1, 2, 5):
+            for k in range(1, 8):
+                did = f"survivors/{spec.label}/lifespan={minutes}m/chunks-of-{k}"
+                if not rep.wants([did]):
+                    continue
+                rep.checked += 1
+                sseed = R.sub_seed(seed, spec.label, minutes, k, "surv")
+                stream = gen.stream("random", 6 * k + 24, sseed)
+                inp = dict(spec.repro())
+                inp.update({"candles_lifespan_seconds": minutes * 60, "stream": {"generator": "oracles.gen.stream", "kind": "random", "n": len(stream), "seed": sseed},
+                            "schedule": f"chunks of {k}"})
+                try:
+                    live = spec.build([], candles_lifespan=timedelta(minutes=minutes))
+                    pos = 0
+                    while pos < len(stream):
+                        before = {c.timestamp: R.snapshot([c])[0] for c in live.candles}
+                        live.append(gen.clone(stream[pos: pos + k]))
+                        pos += k
+                        for c in live.candles:
+                            old = before.get(c.timestamp)
+                            if old is None:
+                                continue
+                            d = R.first_snap_diff([R.snapshot([c])[0]], [old])
+                            if d:
+                                inp["after_feeding"] = pos
+                                rep.fail(f"{spec.slug}-survivor-recomputed", did, FN_CALC,
+                                         f"after {pos} candles the retained candle {c.timestamp} changed {d[1]}: now {R.short(d[2])}, before the append {R.short(d[3])}",
+                                         inp, spec.slug)
+                                raise StopIteration
+                    runs += 1
+                    rep.distinct += 1
+                except StopIteration:
+                    pass
+                except Exception:  # the indicator raising on tiny windows is C09's subject
+                    continue
+    # purely recursive indicators (one predecessor suffices once warm): warm up one by one, then chunks of exactly
+    # window-1 candles, so that each trim leaves ONE calculated candle in front of the new ones; retained readings
+    # must equal those of an untrimmed twin
+    recursive = [s for s in specs if s.label.split("(")[0].split("[")[0] in ("EMA", "RMA", "MACD", "KC", "RSI", "ATR", "OBV", "ADX", "TSI", "Supertrend")]
+    for spec in recursive:
+        for minutes in ((6, 10, 15) if thorough else (10,)):
+            did = f"window-minus-one/{spec.label}/lifespan={minutes}m"
+            if not rep.wants([did]):
+                continue
+            rep.checked += 1
+            sseed = R.sub_seed(seed, spec.label, minutes, "wm1")
+            warm = spec.lookback + minutes + 2
+            stream = gen.stream("random", warm + 4 * minutes, sseed)
+            inp = dict(spec.repro())
+            inp.update({"candles_lifespan_seconds": minutes * 60, "stream": {"generator": "oracles.gen.stream", "kind": "random", "n": len(stream), "seed": sseed},
+                        "schedule": f"{warm} candles one by one, then chunks of {minutes}"})
+            try:
+                live = spec.build([], candles_lifespan=timedelta(minutes=minutes))
+                twin = spec.build([])
+                for c in stream[:warm]:
+                    live.append(gen.clone([c]))
+                    twin.append(gen.clone([c]))
+                pos = warm
+                while pos < len(stream):
+                    live.append(gen.clone(stream[pos: pos + minutes]))
+                    twin.append(gen.clone(stream[pos: pos + minutes]))
+                    pos += minutes
+                    a = R.snapshot(live.candles)
+                    b = R.snapshot(twin.candles[len(twin.candles) - len(live.candles):])
+                    d = R.first_snap_diff(a, b)
+                    if d:
+                        inp["after_feeding"] = pos
+                        rep.fail(f"{spec.slug}-trim-readings", did, FN_CALC,
+                                 f"after {pos} candles, retained candle {d[0]} of {len(live.candles)} {d[1]}: trimmed={R.short(d[2])} untrimmed={R.short(d[3])}", inp, spec.slug)
+                        break
+                else:
+                    runs += 1
+                    rep.distinct += 1
+            except Exception:
+                continue
+    return runs
+
+
 def run(tier, seed, focus=None):
     R.force_utc()
     rep = R.Report(PROP, seed, focus)
@@ -264,7 +350,12 @@ def run(tier, seed, focus=None):
     thorough = tier == "thorough"
     clause1(rep, rnd, thorough)
     nspecs, skipped = clause2(rep, seed, thorough)
+    nsurv = clause3(rep, seed, thorough)
     bound = (
+        f"Clause 3: {nsurv} runs: lifespans of 1/2/5 minutes with chunks of 1..7 one-minute candles (every candle that survives a trim "
+        "keeps every stored reading exactly), and purely recursive indicators warmed up one by one and then fed chunks of exactly window-1 "
+        "candles (retained readings equal an untrimmed twin). " + ""
+    ) + (
         "TZ=UTC. Clause 1: timeframes none/T5/S45/H1"
         + ("/T1/D1" if thorough else "")
         + " with and without fill, 4 timestamp modes (duplicates, multi-bucket gaps), lifespans {0, tf/2, tf, 3tf, 10tf, 25tf+7s}, "
